@@ -21,14 +21,62 @@ theorem pickDom_spec (dd : Int) (ndim d : Nat) (hdd : -31 ≤ dd ∧ dd ≤ 31) 
     split <;> omega
   · simp only [reduceCtorEq, false_iff]; omega
 
+/-- BYDAY as a limit, as the BYMONTHDAY / BYYEARDAY builders test it: no BYDAY at all, or `dow_limit_p` -/
+def DLimB (dow : List Int) (wdMask y m d w : Nat) (mp : Bool) : Prop :=
+  wdMask = 0 ∨ dowLimitP dow wdMask y m d w mp = true
+
+theorem dlimB_neg (dow : List Int) (wdMask y m d w : Nat) (mp : Bool) :
+    ¬ (wdMask ≠ 0 ∧ (!dowLimitP dow wdMask y m d w mp) = true) ↔ DLimB dow wdMask y m d w mp := by
+  unfold DLimB
+  cases dowLimitP dow wdMask y m d w mp <;> by_cases c : wdMask = 0 <;> simp [c]
+
+/-- `dow_limit_p` read as a set: a plain weekday of the mask, or a numbered entry that designates the day -/
+theorem dowLimitP_iff (dow : List Int) (wdMask y m d w : Nat) (mp : Bool) :
+    dowLimitP dow wdMask y m d w mp = true ↔
+      bit wdMask w = true ∨ (wdMask % 2 = 1 ∧ ∃ t ∈ dow, t / 8 ≠ 0 ∧ (t % 8).toNat = w ∧
+        (if mp = true then ymcwGetDom y m (t / 8) (t % 8).toNat = d
+         else (ydToMd y (toS32 (ycwGetYday y (t / 8) (t % 8).toNat))).m = m ∧
+              (ydToMd y (toS32 (ycwGetYday y (t / 8) (t % 8).toNat))).d = d)) := by
+  unfold dowLimitP
+  by_cases c1 : bit wdMask w = true
+  · simp only [c1, if_true, true_or]
+  · rw [if_neg c1]
+    by_cases c2 : wdMask % 2 = 0
+    · rw [if_pos c2]
+      simp only [c1, false_or, Bool.false_eq_true, false_iff]
+      rintro ⟨h, _⟩; omega
+    · rw [if_neg c2, List.any_eq_true]
+      have c2' : wdMask % 2 = 1 := by omega
+      refine Iff.trans ?_ (show _ ↔ _ from ⟨fun h => Or.inr ⟨c2', h⟩, fun h => h.elim (fun h => absurd h c1) (fun h => h.2)⟩)
+      apply exists_congr; intro t
+      apply and_congr Iff.rfl
+      unfold unpackCd
+      dsimp only
+      by_cases c3 : t / 8 = 0 ∨ (t % 8).toNat ≠ w
+      · rw [if_pos c3]
+        simp only [Bool.false_eq_true, false_iff]
+        rintro ⟨h1, h2, _⟩
+        rcases c3 with c3 | c3
+        · exact h1 c3
+        · exact c3 h2
+      · rw [if_neg c3]
+        have c4 : t / 8 ≠ 0 ∧ (t % 8).toNat = w := by
+          constructor
+          · intro h; exact c3 (Or.inl h)
+          · apply Classical.byContradiction; intro h; exact c3 (Or.inr h)
+        cases mp with
+        | true => simp [c4.1, c4.2]
+        | false => simp [c4.1, c4.2]
+
 /-- the selection `fill_mly_ymd` makes for one BYMONTHDAY value -/
-def ymdSel (y mo wdMask : Nat) (dd0 : Int) : Option Nat :=
+def ymdSel (dow : List Int) (y mo wdMask : Nat) (dd0 : Int) : Option Nat :=
   match pickDom dd0 (getNdom y mo) with
   | none => none
-  | some dd => if wdMask >>> 1 ≠ 0 ∧ !bit wdMask (ymdGetWday y mo dd) then none else some (packCand mo dd)
+  | some dd =>
+    if wdMask ≠ 0 ∧ !dowLimitP dow wdMask y mo dd (ymdGetWday y mo dd) true then none else some (packCand mo dd)
 
-theorem fillMlyYmd_eq (cand : List Nat) (y mo : Nat) (ds : List Int) (wdMask : Nat) :
-    fillMlyYmd cand y mo ds wdMask = ds.foldl (fun cand a => assO cand (ymdSel y mo wdMask a)) cand := by
+theorem fillMlyYmd_eq (cand : List Nat) (y mo : Nat) (ds : List Int) (dow : List Int) (wdMask : Nat) :
+    fillMlyYmd cand y mo ds dow wdMask = ds.foldl (fun cand a => assO cand (ymdSel dow y mo wdMask a)) cand := by
   unfold fillMlyYmd
   congr 1
   funext cand dd0
@@ -39,9 +87,9 @@ theorem fillMlyYmd_eq (cand : List Nat) (y mo : Nat) (ds : List Int) (wdMask : N
     dsimp only
     split <;> rfl
 
-theorem mem_fillMlyYmd (cand : List Nat) (y mo : Nat) (ds : List Int) (wdMask : Nat) (x : Nat) :
-    x ∈ fillMlyYmd cand y mo ds wdMask ↔ x ∈ cand ∨ ∃ dd0 ∈ ds, ∃ d, pickDom dd0 (getNdom y mo) = some d ∧
-      (wdMask >>> 1 = 0 ∨ bit wdMask (ymdGetWday y mo d) = true) ∧ x = packCand mo d := by
+theorem mem_fillMlyYmd (cand : List Nat) (y mo : Nat) (ds : List Int) (dow : List Int) (wdMask : Nat) (x : Nat) :
+    x ∈ fillMlyYmd cand y mo ds dow wdMask ↔ x ∈ cand ∨ ∃ dd0 ∈ ds, ∃ d, pickDom dd0 (getNdom y mo) = some d ∧
+      DLimB dow wdMask y mo d (ymdGetWday y mo d) true ∧ x = packCand mo d := by
   rw [fillMlyYmd_eq, mem_foldl_assO]
   apply or_congr Iff.rfl
   apply exists_congr; intro dd0
@@ -51,23 +99,16 @@ theorem mem_fillMlyYmd (cand : List Nat) (y mo : Nat) (ds : List Int) (wdMask : 
   | none => simp
   | some dd =>
     dsimp only
-    by_cases c : wdMask >>> 1 ≠ 0 ∧ (!bit wdMask (ymdGetWday y mo dd)) = true
+    by_cases c : wdMask ≠ 0 ∧ (!dowLimitP dow wdMask y mo dd (ymdGetWday y mo dd) true) = true
     · rw [if_pos c]
       simp only [reduceCtorEq, Option.some.injEq, false_iff]
-      rintro ⟨d, rfl, h | h, _⟩
-      · exact c.1 h
-      · rw [h] at c; exact absurd c.2 (by decide)
+      rintro ⟨d, rfl, h, _⟩
+      exact (dlimB_neg _ _ _ _ _ _ _).2 h c
     · rw [if_neg c]
       simp only [Option.some.injEq]
       constructor
       · intro h
-        refine ⟨dd, rfl, ?_, h.symm⟩
-        by_cases c1 : wdMask >>> 1 = 0
-        · exact Or.inl c1
-        · right
-          cases hb : bit wdMask (ymdGetWday y mo dd) with
-          | true => rfl
-          | false => exact absurd ⟨c1, by rw [hb]; rfl⟩ c
+        exact ⟨dd, rfl, (dlimB_neg _ _ _ _ _ _ _).1 c, h.symm⟩
       · rintro ⟨d, rfl, _, h⟩; exact h.symm
 
 /-- `ymcw_get_dom` in plain terms: the day `d` of the month (of `nd` days, the 1st a `wd1`) that is a `w` and the
